@@ -203,6 +203,9 @@ pub fn run(ctx: &Ctx, rep: &mut Report) {
             6 => o2(not(o1(a, b)), c),
             _ => o2(a, not(o1(b, c))),
         };
+        // every eighth shape carries explicit Precedence nodes (the parser never returns them, the public
+        // constructors allow them)
+        let e = if (i / 72) % 8 == 0 { prec(or(prec(e.clone()), prec(t(Test::False)))) } else { e };
         check_tree(&e, &format!("shapes:{}", i), &mut r, rep, 4);
     });
     // stream shared: trees in which one Rc sub-tree occurs in several places (Expression is Clone)
